@@ -38,7 +38,7 @@ def prescription():
         ap=st.one_of(st.tuples(st.just('ENPD'), f(0.5, 20.0)), st.tuples(st.just('FNUM'), f(1.5, 20.0)),
                      st.tuples(st.just('OBNA'), f(0.01, 0.3))),
         ftype=st.sampled_from([0, 0, 1]),
-        fields_y=st.lists(f(0.0, 20.0).map(lambda v: round(v, 6)), min_size=1, max_size=12, unique=True),
+        fields_y=st.lists(f(-20.0, 20.0).map(lambda v: round(v, 6)), min_size=1, max_size=12, unique=True),
         # x components of the fields (index-wise; several fields may then share one y value) and a selector that lets a
         # y value repeat
         fields_x=st.lists(st.sampled_from([0.0, 0.0, 0.0, 1.5, -3.0, 7.25]), min_size=12, max_size=12),
